@@ -344,8 +344,10 @@ def run_check(prop, module, tier, seed):
             known_hits[hit["key"]] = (hit, known_hits[hit["key"]][1] + 1)
         else:
             new_violations.append(v)
-    for key, (hit, n) in sorted(known_hits.items()):
-        print(f"KNOWN-FINDING: property={prop} {hit['what']} [{key}; {n} case(s) this run]")
+    for k in known:
+        n = known_hits.get(k["key"], (k, 0))[1]
+        note = f"{n} case(s) reproduced this run" if n else "not reproduced by this run's sample"
+        print(f"KNOWN-FINDING: property={prop} {k['what']} [{k['key']}; {note}]")
     seen_keys = set()
     for v in new_violations:
         if v["key"] in seen_keys:
